@@ -121,4 +121,16 @@ def toAR : ARX → Option AR
   | _ => none
 
 end ARX
+
+namespace Src
+
+/-- `numpy.zeros(n)` holding (extended) acceptance probabilities. -/
+def zerosARX (n : Int) : List ARX := List.replicate n.toNat ARX.zero
+
+/-- `numpy.diff(x)` over extended values. -/
+def diffX : List EL → List EL
+  | a :: b :: rest => (b - a) :: diffX (b :: rest)
+  | _ => []
+
+end Src
 end Epsie
